@@ -98,23 +98,28 @@ struct Txn {
 
 impl Txn {
     /// Implementation for queries from the versions table
-    fn get_version_impl<P: rusqlite::Params>(
+    fn get_version_impl(
         &mut self,
         query: &'static str,
-        params: P,
+        client_id: Uuid,
+        version_id_arg: Uuid,
     ) -> anyhow::Result<Option<Version>> {
         let r = self
             .con
-            .query_row(query, params, |r| {
-                let version_id: StoredUuid = r.get("version_id")?;
-                let parent_version_id: StoredUuid = r.get("parent_version_id")?;
+            .query_row(
+                query,
+                params![&StoredUuid(version_id_arg), &StoredUuid(client_id)],
+                |r| {
+                    let version_id: StoredUuid = r.get("version_id")?;
+                    let parent_version_id: StoredUuid = r.get("parent_version_id")?;
 
-                Ok(Version {
-                    version_id: version_id.0,
-                    parent_version_id: parent_version_id.0,
-                    history_segment: r.get("history_segment")?,
-                })
-            })
+                    Ok(Version {
+                        version_id: version_id.0,
+                        parent_version_id: parent_version_id.0,
+                        history_segment: r.get("history_segment")?,
+                    })
+                },
+            )
             .optional()
             .context("Error getting version")?;
         Ok(r)
@@ -229,16 +234,15 @@ impl StorageTxn for Txn {
     ) -> anyhow::Result<Option<Version>> {
         self.get_version_impl(
             "SELECT version_id, parent_version_id, history_segment FROM versions WHERE parent_version_id = ? AND client_id = ?",
-            params![&StoredUuid(parent_version_id), &StoredUuid(self.client_id)],
-        )
+            self.client_id,
+            parent_version_id)
     }
 
     fn get_version(&mut self, version_id: Uuid) -> anyhow::Result<Option<Version>> {
-        // version_id is the table's primary key, so this is a direct unique lookup.
         self.get_version_impl(
-            "SELECT version_id, parent_version_id, history_segment FROM versions WHERE version_id = ?",
-            params![&StoredUuid(version_id)],
-        )
+            "SELECT version_id, parent_version_id, history_segment FROM versions WHERE version_id = ? AND client_id = ?",
+            self.client_id,
+            version_id)
     }
 
     fn add_version(
